@@ -70,6 +70,10 @@ def mpc_hash(z):
         h = mpf_hash(re) + sys.hash_info.imag * mpf_hash(im)
         # Need to reduce either module 2^32 or 2^64
         h = h % (2**sys.hash_info.width)
+        # ... as a signed word, like the hash of a Python complex
+        if h >= 2**(sys.hash_info.width-1):
+            h -= 2**sys.hash_info.width
+        if h == -1: h = -2
         return int(h)
     else:
         try:
